@@ -2,7 +2,9 @@
 Layer B of C01/C13/C09, part 4: simulation of every abstract command and of command lists.
 
 `CapsFx dc rc` collects what the simulation needs to know about the terminal description: the *effect on the
-reference emulator* of the bytes rendered for each kind of command.  `Lemmas/LayerBXterm.lean` + `Lemmas/LayerBXtermFx.lean`
+reference emulator* of the bytes rendered for each kind of command (`IchFx`: the same for the insert-character string of the
+bottom-right corner trick, asked only of terminals that use the trick; `sim_insertChar` is its simulation step in the situation
+the trick creates, `AdmitIch`).  `Lemmas/LayerBXterm.lean` + `Lemmas/LayerBXtermFx.lean`
 prove `CapsFx` for every description in the class `XtermLike` (`xl_capsFx`).  `Admit` is the side condition under which a command is simulated
 (`Lemmas/LayerBAdmit.lean` proves it for every command the draw path emits over any history).
 -/
@@ -41,6 +43,15 @@ structure CapsFx (dc : DrawCfg) (rc : RenderCfg) : Prop where
     ∃ t', t.feed (Render.render rc (.clear s)) = t' ∧ Good dc.rw t' ∧ Quiet rc t' ∧ t'.grid.w = t.grid.w ∧ t'.grid.h = t.grid.h ∧
       t'.modes.cursorVisible = t.modes.cursorVisible ∧ t'.modes.cursorShape = t.modes.cursorShape
 
+/-- the effect asked of the insert-character string -/
+def IchFx (dc : DrawCfg) (rc : RenderCfg) : Prop :=
+  ∀ t : Term, Good dc.rw t → t.feed (Render.render rc .insertChar) = t.insertChars 1
+
+/-- the situation in which the corner trick inserts: cursor known, in the grid, in the last-but-one column, on a narrow
+    glyph the terminal is known to show; the last cell is not known to be a right half -/
+def AdmitIch (a : ATerm) : Prop :=
+  ∃ x y b st, a.cur = some (x, y) ∧ a.inGrid x y ∧ a.grid x y = .shown b false st ∧ a.grid (x + 1) y ≠ .cont ∧ x + 2 = a.w
+
 /-- side condition of the simulation of one command in abstract state `a` -/
 def Admit (dc : DrawCfg) (a : ATerm) : Cmd → Prop
   | .goto x y => 0 ≤ x ∧ 0 ≤ y ∧ x + 1 < TParm.maxInt64 ∧ y + 1 < TParm.maxInt64
@@ -50,7 +61,7 @@ def Admit (dc : DrawCfg) (a : ATerm) : Cmd → Prop
   | .hideCursor => dc.hasHide = true
   | .showCursor _ cc => Color.valid cc = false ∧ cc ≠ colorReset
   | .clear _ => True
-  | .insertChar => False
+  | .insertChar => dc.cornerTrick = true ∧ AdmitIch a
 
 /-- every command of the list is admissible in the state it is applied to -/
 def AdmitAll (dc : DrawCfg) : ATerm → List Cmd → Prop
@@ -80,8 +91,129 @@ theorem curRep_modes {t : Term} {m' : Modes} (hm : ModesOk t.modes m') {x y : In
   intro hx; have := d hx
   exact ⟨this.1, by show t.pendingWrap = m'.autoMargin; rw [hm.am]; exact this.2⟩
 
-/-- **simulation of one command** -/
-theorem sim_cmd {dc : DrawCfg} {rc : RenderCfg} (hrw : RwB dc.rw) (fx : CapsFx dc rc) {t : Term} {a : ATerm}
+/-- ICH on the abstract terminal in the corner-trick situation: the glyph under the cursor moves into the last column, the
+    cell under the cursor becomes an erased cell (nothing claimed), nothing else changes -/
+theorem insertAt_corner_grid (a : ATerm) (x y : Int) (b : List Nat) (st : Style) (hsh : a.grid x y = .shown b false st)
+    (hw2 : x + 2 = a.w) (i j : Int) :
+    (a.insertAt x y).grid i j =
+      if j = y ∧ i = x then .garbage else if j = y ∧ i = x + 1 then .shown b false st else a.grid i j := by
+  simp only [ATerm.insertAt]
+  by_cases h1 : j = y ∧ i = x
+  · rw [if_pos h1, if_pos h1]
+  · rw [if_neg h1, if_neg h1, if_neg (by rw [hsh]; intro h; cases h.2.2)]
+    by_cases h2 : j = y ∧ i = x + 1
+    · rw [if_pos ⟨h2.1, by omega, by omega⟩, if_pos h2]
+      obtain ⟨rfl, rfl⟩ := h2
+      rw [show x + 1 - 1 = x by omega, hsh]
+    · rw [if_neg h2, if_neg (by intro h; exact h2 ⟨h.1, by omega⟩)]
+
+/-- **simulation of `insertChar`** (ICH) in the corner-trick situation -/
+theorem sim_insertChar {dc : DrawCfg} {rc : RenderCfg} (hich : IchFx dc rc) {t : Term} {a : ATerm} (R : Rep dc rc t a)
+    (had : AdmitIch a) : Rep dc rc (t.feed (Render.render rc .insertChar)) (a.apply .insertChar) := by
+  obtain ⟨x, y, b, st, hcur, hin, hsh, hnc, hw2⟩ := had
+  obtain ⟨hx0, hxw, hy0, hyh⟩ := hin
+  obtain ⟨ck, ccy, c1, _⟩ := R.cur x y hcur hx0 hy0
+  have hgw := R.w; have hgh := R.h
+  obtain ⟨ccx, cpw⟩ := c1 (by omega)
+  have ea : a.apply .insertChar = a.insertAt x y := by
+    simp only [ATerm.apply, hcur]; rw [if_pos ⟨hx0, hxw, hy0, hyh⟩]
+  have exi : ((t.cx : Nat) : Int) = x := by omega
+  have eyi : ((t.cy : Nat) : Int) = y := by omega
+  have hcxw : t.cx + 2 = t.grid.w := by omega
+  have hcyh : t.cy < t.grid.h := by omega
+  have cr := R.cells t.cx t.cy (by omega) hcyh
+  rw [exi, eyi, hsh] at cr
+  obtain ⟨cr1, cr2, cr3, cr4⟩ := cr
+  have hc1 : (t.grid.get (t.cx + 1) t.cy).cont = false := by
+    cases h : (t.grid.get (t.cx + 1) t.cy).cont
+    · rfl
+    · rcases R.conts t.cx t.cy h with h' | h'
+      · rw [exi, eyi] at h'; exact absurd h' hnc
+      · rw [exi, eyi, hsh] at h'; cases h'
+  -- the emulator side in closed form
+  have eg : t.insertChars 1 =
+      { t with grid := Grid.build t.grid.w t.grid.h (fun x' y' =>
+                 if y' = t.cy ∧ t.cx ≤ x' then (if x' < t.cx + 1 then t.blankCell else Grid.touch (t.grid.get (x' - 1) y') t.blocks)
+                 else t.grid.get x' y'),
+               pendingWrap := false } := by
+    have hlast : t.grid.w - 1 = t.cx + 1 := by omega
+    simp [insertChars, ck, Grid.insertBlanks, cr1, hlast, hc1]
+  rw [ea, hich t R.good, eg]
+  have hget : ∀ i j, i < t.grid.w → j < t.grid.h →
+      (Grid.build t.grid.w t.grid.h (fun x' y' =>
+         if y' = t.cy ∧ t.cx ≤ x' then (if x' < t.cx + 1 then t.blankCell else Grid.touch (t.grid.get (x' - 1) y') t.blocks)
+         else t.grid.get x' y')).get i j =
+      if j = t.cy ∧ t.cx ≤ i then (if i < t.cx + 1 then t.blankCell else Grid.touch (t.grid.get (i - 1) j) t.blocks)
+      else t.grid.get i j := fun i j hi hj => Grid.get_build _ _ _ _ _ hi hj
+  have hagrid := insertAt_corner_grid a x y b st hsh hw2
+  exact {
+    good := ⟨R.good.st, R.good.utf8, R.good.font, R.good.g0, R.good.so, R.good.irm, R.good.mal, R.good.rw⟩
+    quiet := ⟨R.quiet.link, R.quiet.vis, R.quiet.ff⟩
+    w := R.w, h := R.h
+    cells := by
+      intro i j hi hj
+      have hi' : i < t.grid.w := hi
+      have hj' : j < t.grid.h := hj
+      clear hi hj
+      show CellRep rc (Grid.get _ i j) _
+      rw [hget i j hi' hj', hagrid]
+      by_cases h1 : j = t.cy ∧ i = t.cx
+      · rw [if_pos (show (j : Int) = y ∧ (i : Int) = x from ⟨by omega, by omega⟩)]; trivial
+      · rw [if_neg (show ¬ ((j : Int) = y ∧ (i : Int) = x) from by omega)]
+        by_cases h2 : j = t.cy ∧ i = t.cx + 1
+        · obtain ⟨rfl, rfl⟩ := h2
+          rw [if_pos (show ((t.cy : Nat) : Int) = y ∧ ((t.cx + 1 : Nat) : Int) = x + 1 from ⟨by omega, by omega⟩),
+            if_pos (show t.cy = t.cy ∧ t.cx ≤ t.cx + 1 from ⟨rfl, by omega⟩), if_neg (show ¬ t.cx + 1 < t.cx + 1 by omega),
+            show t.cx + 1 - 1 = t.cx by omega]
+          exact ⟨cr1, cr2, cr3, cr4⟩
+        · rw [if_neg (show ¬ ((j : Int) = y ∧ (i : Int) = x + 1) from by omega),
+            if_neg (show ¬ (j = t.cy ∧ t.cx ≤ i) from by omega)]
+          exact R.cells i j hi' hj'
+    conts := by
+      intro i j hc
+      have hc' : (Grid.get (Grid.build t.grid.w t.grid.h (fun x' y' =>
+         if y' = t.cy ∧ t.cx ≤ x' then (if x' < t.cx + 1 then t.blankCell else Grid.touch (t.grid.get (x' - 1) y') t.blocks)
+         else t.grid.get x' y')) (i + 1) j).cont = true := hc
+      clear hc
+      by_cases hr : i + 1 < t.grid.w ∧ j < t.grid.h
+      · rw [hget (i + 1) j hr.1 hr.2] at hc'
+        by_cases h1 : j = t.cy ∧ t.cx ≤ i + 1
+        · rw [if_pos h1] at hc'
+          by_cases h2 : i + 1 < t.cx + 1
+          · rw [if_pos h2] at hc'; simp [blankCell] at hc'
+          · rw [if_neg h2] at hc'
+            have : i + 1 - 1 = t.cx := by omega
+            obtain ⟨rfl, _⟩ := h1
+            rw [this] at hc'
+            simp [Grid.touch, cr1] at hc'
+        · rw [if_neg h1] at hc'
+          rw [hagrid, hagrid]
+          rcases R.conts i j hc' with h | h
+          · left
+            rw [if_neg (show ¬ ((j : Int) = y ∧ (i : Int) + 1 = x) from by omega),
+              if_neg (show ¬ ((j : Int) = y ∧ (i : Int) + 1 = x + 1) from by omega)]; exact h
+          · right
+            by_cases h3 : (j : Int) = y ∧ (i : Int) = x
+            · rw [if_pos h3]
+            · rw [if_neg h3, if_neg (show ¬ ((j : Int) = y ∧ (i : Int) = x + 1) from by omega)]; exact h
+      · exfalso
+        have : (Grid.build t.grid.w t.grid.h (fun x' y' =>
+           if y' = t.cy ∧ t.cx ≤ x' then (if x' < t.cx + 1 then t.blankCell else Grid.touch (t.grid.get (x' - 1) y') t.blocks)
+           else t.grid.get x' y')).get (i + 1) j = {} := Grid.get_out _ _ _ (by simpa [Grid.build] using hr)
+        rw [this] at hc'; cases hc'
+    cur := by
+      intro x' y' hc hx' hy'
+      have : (a.insertAt x y).cur = a.cur := rfl
+      rw [this, hcur] at hc
+      simp only [Option.some.injEq, Prod.mk.injEq] at hc
+      obtain ⟨rfl, rfl⟩ := hc
+      exact ⟨ck, ccy, fun _ => ⟨ccx, rfl⟩, fun h => by exfalso; have h' : x = ((t.grid.w : Nat) : Int) := h; omega⟩
+    pen := R.pen, vis := R.vis, shape := R.shape }
+
+/-- **simulation of one command**; `hich`: on a terminal that needs the bottom-right corner trick the insert-character string
+    is ICH (nothing is asked on other terminals: the draw path never emits `Cmd.insertChar` there) -/
+theorem sim_cmd {dc : DrawCfg} {rc : RenderCfg} (hrw : RwB dc.rw) (fx : CapsFx dc rc)
+    (hich : dc.cornerTrick = true → IchFx dc rc) {t : Term} {a : ATerm}
     (R : Rep dc rc t a) (cmd : Cmd) (had : Admit dc a cmd) :
     Rep dc rc (t.feed (Render.render rc cmd)) (a.apply cmd) := by
   cases cmd with
@@ -95,7 +227,7 @@ theorem sim_cmd {dc : DrawCfg} {rc : RenderCfg} (hrw : RwB dc.rw) (fx : CapsFx d
     have hw := R.w; have hh := R.h
     exact {
       good := good_of_eq R.good rfl rfl (ModesOk.refl _) rfl
-      quiet := ⟨R.quiet.link, R.quiet.vis⟩
+      quiet := ⟨R.quiet.link, R.quiet.vis, R.quiet.ff⟩
       w := R.w, h := R.h, cells := R.cells, conts := R.conts
       cur := by
         intro x' y' hc hx' hy'
@@ -117,7 +249,7 @@ theorem sim_cmd {dc : DrawCfg} {rc : RenderCfg} (hrw : RwB dc.rw) (fx : CapsFx d
     rw [fx.pen t s R.good R.quiet had]
     exact {
       good := good_of_eq R.good rfl rfl (ModesOk.refl _) rfl
-      quiet := ⟨fun _ => ⟨rfl, by show (penOf rc s).link = none; simp [penOf, show s.url = "" from had]⟩, R.quiet.vis⟩
+      quiet := ⟨fun _ => ⟨rfl, by show (penOf rc s).link = none; simp [penOf, show s.url = "" from had]⟩, R.quiet.vis, R.quiet.ff⟩
       w := R.w, h := R.h, cells := R.cells, conts := R.conts, cur := R.cur
       pen := by
         intro s' h
@@ -139,14 +271,16 @@ theorem sim_cmd {dc : DrawCfg} {rc : RenderCfg} (hrw : RwB dc.rw) (fx : CapsFx d
     rw [e]
     exact {
       good := good_of_eq R.good rfl rfl mo rfl
-      quiet := ⟨R.quiet.link, fun h => by
+      quiet := ⟨R.quiet.link, (fun h => by
         -- a terminal with a hide string: the premise is false
         exfalso
         have : Render.render rc .hideCursor = [] := by simp [Render.render, h]
         rw [this] at e
         have : t.modes = m' := by simpa [Term.feed] using congrArg Term.modes e
         have h1 := R.quiet.vis h
-        rw [this, hv] at h1; cases h1⟩
+        rw [this, hv] at h1
+        cases h1),
+        R.quiet.ff⟩
       w := R.w, h := R.h, cells := R.cells, conts := R.conts
       cur := fun x y h hx hy => curRep_modes mo (R.cur x y h hx hy)
       pen := R.pen
@@ -157,7 +291,7 @@ theorem sim_cmd {dc : DrawCfg} {rc : RenderCfg} (hrw : RwB dc.rw) (fx : CapsFx d
     rw [e]
     exact {
       good := good_of_eq R.good rfl rfl mo rfl
-      quiet := ⟨R.quiet.link, fun _ => hv⟩
+      quiet := ⟨R.quiet.link, fun _ => hv, R.quiet.ff⟩
       w := R.w, h := R.h, cells := R.cells, conts := R.conts
       cur := fun x y h hx hy => curRep_modes mo (R.cur x y h hx hy)
       pen := R.pen
@@ -181,11 +315,12 @@ theorem sim_cmd {dc : DrawCfg} {rc : RenderCfg} (hrw : RwB dc.rw) (fx : CapsFx d
       pen := by intro s' h; simp [ATerm.apply] at h
       vis := by intro b h; rw [hv]; exact R.vis b h
       shape := by intro cs cc h h7 hn; rw [hs]; exact R.shape cs cc h h7 hn }
-  | insertChar => exact absurd had id
+  | insertChar => exact sim_insertChar (hich had.1) R had.2
 
 /-- **simulation of a command list**: the bytes of the whole list, fed to an emulator representing `a`, give an
     emulator representing `a.applyAll cmds` -/
-theorem sim_all {dc : DrawCfg} {rc : RenderCfg} (hrw : RwB dc.rw) (fx : CapsFx dc rc) :
+theorem sim_all {dc : DrawCfg} {rc : RenderCfg} (hrw : RwB dc.rw) (fx : CapsFx dc rc)
+    (hich : dc.cornerTrick = true → IchFx dc rc) :
     ∀ (cmds : List Cmd) {t : Term} {a : ATerm}, Rep dc rc t a → AdmitAll dc a cmds →
       Rep dc rc (t.feed (Render.renderAll rc cmds)) (a.applyAll cmds) := by
   intro cmds
@@ -193,7 +328,7 @@ theorem sim_all {dc : DrawCfg} {rc : RenderCfg} (hrw : RwB dc.rw) (fx : CapsFx d
   | nil => intro t a R _; simpa [Render.renderAll, ATerm.applyAll] using R
   | cons c cs ih =>
     intro t a R had
-    have R1 := sim_cmd hrw fx R c had.1
+    have R1 := sim_cmd hrw fx hich R c had.1
     have R2 := ih R1 had.2
     simp only [Render.renderAll, List.flatMap_cons, ATerm.applyAll, List.foldl_cons] at R2 ⊢
     rw [← feed_append]; exact R2
